@@ -107,18 +107,49 @@ def run_unit(name):
                 v = mk(ctx)
                 return [b, v], [s, v], [("sink", b, s)], {"args": [v]}
             res = L1.verify_refines(reg, fn, contract, make2, f"C17/records.writers/write_batch[{label}]", setup=setup,
-                                    models=reg.records_models, inline=_inline,
+                                    models=reg.records_models, inline=_inline, history_replayer=records_history_replayer,
                                     replayer_factory=lambda info: records_replayer(fn, name, info["args"]))
             out.append(res)
     else:
         out.append(L1.verify_refines(reg, fn, contract, make, f"C17/records.writers/{name}", setup=setup,
-                                     models=reg.records_models, inline=_inline,
+                                     models=reg.records_models, inline=_inline, history_replayer=records_history_replayer,
                                      replayer_factory=lambda info: records_replayer(fn, name, info["args"])))
     for r in out:
         for ob in r.obligations:
             if ob.info.get("args") is not None:
                 ob.info["replayer"] = records_replayer(fn, name, ob.info["args"])
     return [common.summarise(r, [common.function_record(fn)]) for r in out]
+
+
+def records_history_replayer(ob):
+    """native search for a witness that a records writer depends on the call history: a valid batch, then a call that
+    fails part-way (a record with a str value / an attribute outside int8), then the same valid batch again"""
+    import datetime
+    import io
+    from kio.records.schema import NewRecordBatch, Record
+    from kio.records.writers import write_batch
+    ts = datetime.datetime(2024, 1, 2, 3, 4, 5, tzinfo=datetime.timezone.utc)
+    good = NewRecordBatch(producer_id=1, producer_epoch=0, partition_leader_epoch=0, base_sequence=0, attributes=0,
+                          records=(Record(attributes=0, timestamp=ts, offset=5, key=b"k", value=b"v", headers=()),))
+
+    def enc(b):
+        buf = io.BytesIO()
+        try:
+            write_batch(buf, b)
+            return buf.getvalue()
+        except Exception as ex:       # noqa: BLE001
+            return repr(ex).encode()
+    want = enc(good)
+    bads = [NewRecordBatch(producer_id=1, producer_epoch=0, partition_leader_epoch=0, base_sequence=0, attributes=0,
+                           records=(Record(attributes=a, timestamp=ts, offset=5, key=k, value=v, headers=()),))
+            for a, k, v in ((0, b"k", "not bytes"), (1000, b"k", b"v"), (0, "not bytes", b"v"))]
+    for i, bad in enumerate(bads):
+        enc(bad)
+        got = enc(good)
+        if got != want:
+            return {"confirmed": True, "history": f"a valid batch, then failing call #{i} ({bad.records[0]!r:.120}), then the same valid batch",
+                    "expected": want.hex()[:200], "observed": got.hex()[:200] if got[:1] != b"<" else got.decode()[:200]}
+    return {"confirmed": False, "note": "no history dependence found natively"}
 
 
 def records_replayer(fn, name, args):
